@@ -97,7 +97,8 @@ def run_shard(shard, rec):
     rng = random.Random(shard["seed"])
     for i in range(shard["count"]):
         big = i % 8 == 7
-        g = ftn.FGen(rng, two_types=rng.random() < 0.3, max_ops=24 if big else 10)
+        g = ftn.FGen(rng, two_types=rng.random() < 0.3, max_ops=24 if big else 10,
+                     struct_type=rng.random() < 0.15)
         script = g.script()
         if big:
             rec.count("large_programs")
